@@ -821,9 +821,11 @@ class Machine:
                 if type_head(f.ret) == q: s += 2
                 elif q in f.ret: s += 1
             if rt is not None and a0 is not None:
-                if a0 == rt: s += 3
+                if a0 == rt: s += 6
                 elif f.impl_self == rt: s += 1
                 elif a0 in INT_BITS or a0 in ('f32', 'f64', 'bool'): s -= 6      # concrete scalar impl for another type
+                elif isinstance(rt, str) and rt[:1].isupper() and a0[:1].isupper() and len(a0) > 2 and a0 not in ('Value', 'Data', 'State', 'Timeline', 'TimelineMap', 'Self'):
+                    s -= 5                                                        # method of a different concrete receiver type
             if s > bests: best = [f]; bests = s
             elif s == bests: best.append(f)
         if bests <= 0 or not best:
@@ -831,7 +833,7 @@ class Machine:
         elif len(best) > 1:
             best2 = self.models.disambiguate(self, tr, method, best, callee)
             if len(best2) != 1:
-                raise Unsupported(f'ambiguous callee `{callee}`: {[b.name for b in best][:4]}')
+                raise Unsupported(f'ambiguous callee `{callee}` q={q} tr={tr} rt={rt} score={bests} n={len(best)}: {[b.name[-50:] for b in best][:3]}')
             r = best2[0]
         else:
             r = best[0]
